@@ -71,6 +71,7 @@ def rich_state(P, A):
         root = B.ro_tree(stories, lead=3, gap=P.get('gap', 0), trail=P.get('trail', 1), edstart=None)
         rc = root.find('roCreate')
         rc.insert(3, meta)
+        _tails(P, root)
         return B.wrap(root, B.mt.RunningOrder), ids, None, None
     addr_id, other_id = A['p0'], A['p1']
     body = []
@@ -92,7 +93,17 @@ def rich_state(P, A):
     order = [addressed, other] if P.get('w', 0) == 0 else [other, addressed]
     root = B.ro_tree(order, lead=3, trail=1)
     root.find('roCreate').insert(3, meta)
+    _tails(P, root)
     return B.wrap(root, B.mt.RunningOrder), ids, addr_id, other_id
+
+
+def _tails(P, root):
+    """P['tails']: mixed content - every story, item and paragraph is followed by character data of its parent
+    (an element's tail travels with it; nothing else may touch it)."""
+    if P.get('tails'):
+        for i, el in enumerate(root.iter()):
+            if el.tag in ('story', 'item', 'p', 'roChannel', 'roTrigger'):
+                el.tail = 'text-after-%d' % i
 
 
 # ---------------------------------------------------------------------------------------
